@@ -690,6 +690,12 @@ func TestC12Concurrent(t *testing.T) {
 	if run.Shard == 0 {
 		parkedPublisher(run)
 		reattachedID(run)
+		scratch := os.Getenv("VERIF_SCRATCH")
+		if scratch == "" {
+			scratch = t.TempDir()
+		}
+		os.MkdirAll(scratch, 0o755)
+		overlapOnFileStore(run, scratch)
 	}
 	n := run.Scale(150, 5000)
 	procs := []int{2, 4, 16, 1}
